@@ -774,9 +774,10 @@ func genST(rng *rand.Rand, n int) (cases []string) {
 	for i := 0; i < n; i++ {
 		sep := seps[rng.IntN(len(seps))]
 		var sb strings.Builder
+		blankOnly := false // every piece consists of real white space only
 		sp := func(max int) {
 			for k := rng.IntN(max + 1); k > 0; k-- {
-				if rng.IntN(12) == 0 {
+				if rng.IntN(12) == 0 && !blankOnly {
 					sb.WriteString(nonSpacesC13[rng.IntN(len(nonSpacesC13))])
 				} else {
 					sb.WriteString(spacesC13[rng.IntN(len(spacesC13))])
@@ -784,13 +785,23 @@ func genST(rng *rand.Rand, n int) (cases []string) {
 			}
 		}
 		np := rng.IntN(7)
+		blankHeavy := false
+		if rng.IntN(25) == 0 {
+			// long lists, most of whose pieces are blank
+			np = pick(rng, 30, 31, 32, 33, 63, 64, 65, 100, 129)
+			if v, ok := dictInt(rng, 3, 300); ok && rng.IntN(3) == 0 {
+				np = int(v) + pick(rng, 0, 1)
+			}
+			blankHeavy = true
+			blankOnly = rng.IntN(2) == 0
+		}
 		sp(2)
 		for j := 0; j < np; j++ {
 			if j > 0 {
 				sb.WriteString(sep)
 			}
 			sp(2)
-			if rng.IntN(4) != 0 {
+			if (!blankHeavy && rng.IntN(4) != 0) || (blankHeavy && !blankOnly && rng.IntN(np) < pick(rng, 1, 1, 3)) {
 				sb.WriteString(words[rng.IntN(len(words))])
 			}
 			sp(2)
